@@ -60,6 +60,8 @@ def lib_flags(flavour='rel'):
           '-I' + REPO + '/src', '-I' + REPO + '/include', '-isystem', '/usr/include/libxml2']
     if flavour == 'asan':
         fl += ['-fsanitize=address,undefined', '-fno-sanitize-recover=all', '-fno-omit-frame-pointer']
+    if flavour == 'cov':
+        fl = [x for x in fl if x != '-O1'] + ['-O0', '--coverage', '-DUTAPDUMP_COV']
     return fl
 
 
@@ -416,6 +418,8 @@ def parse_dump(out):
 
 def run_jobs(job, flavour='rel', timeout=3000, shards=16, env=None):
     """runs the job (a Job, split per case over `shards` processes) and returns parse_dump's dict"""
+    if os.environ.get('VERIF_FLAVOUR') and flavour == 'rel':
+        flavour = os.environ['VERIF_FLAVOUR']          # development aid: run a check against the gcov build
     exe = build_utapdump(flavour)
     # split at CASE boundaries
     blob = job.bytes()
